@@ -158,6 +158,50 @@ Proof.
   rewrite app_nil_r in H. exact H.
 Qed.
 
+(* Both halves of the decision of one read-loop iteration, in terms of the history: the datagram is handed
+   over to identifier i iff it parses, carries i, a request is outstanding on i, and it verifies against THAT
+   request.  In particular a datagram that does not verify is ignored (and, [awaiting] being transparent for
+   ignored datagrams, leaves every outstanding request outstanding). *)
+Lemma crecv_decision (secret : bytes) (st : pending) (h : list ev) (d : bytes) (i : N) :
+  cinv st h ->
+  (snd (cstep md5raw fl secret st (CRecv d)) = Some i <->
+   exists p req, parse d = Some p /\ p_id p = i /\ awaiting h i = Some req /\
+                 resp_auth_ok md5raw secret (sub 4 16 req) (truncate d) = true /\
+                 ma_resp_ok md5raw secret (sub 4 16 req) (truncate d) = true).
+Proof.
+  intros [Hlen Hst]. unfold cstep.
+  destruct (parse d) as [p|] eqn:Hp.
+  2:{ split; [discriminate|]. intros (p & req & Hx & _). discriminate. }
+  rewrite Hst.
+  destruct (awaiting h (p_id p)) as [req|] eqn:Ha.
+  2:{ split; [discriminate|]. intros (p' & req & Hp' & Hi & Ha' & _). inversion Hp'; subst. congruence. }
+  unfold reply_ok. rewrite Hfl.
+  destruct (resp_auth_ok md5raw secret (sub 4 16 req) (truncate d) && ma_resp_ok md5raw secret (sub 4 16 req) (truncate d))%bool eqn:Hok; simpl.
+  - apply andb_true_iff in Hok as [H1 H2]. split.
+    + intros Hi; inversion Hi; subst. exists p, req. auto.
+    + intros (p' & req' & Hp' & Hi & _). inversion Hp'; subst. reflexivity.
+  - split; [discriminate|]. intros (p' & req' & Hp' & Hi & Ha' & H1 & H2). inversion Hp'; subst p'. subst i.
+    rewrite Ha in Ha'. inversion Ha'; subst req'. rewrite H1, H2 in Hok. discriminate.
+Qed.
+
+(* positive half over histories: whatever happened before — in particular any number of forged, stale or
+   malformed datagrams since the request was sent — a datagram that verifies against the outstanding request
+   is handed over *)
+Lemma genuine_reply_delivered (secret : bytes) (ops : list cop) st outs (d : bytes) (p : packet) (req : bytes) :
+  Forall op_wf ops ->
+  crun md5raw fl secret pending0 ops = (st, outs) ->
+  parse d = Some p ->
+  awaiting (rev (events ops outs)) (p_id p) = Some req ->
+  resp_auth_ok md5raw secret (sub 4 16 req) (truncate d) = true ->
+  ma_resp_ok md5raw secret (sub 4 16 req) (truncate d) = true ->
+  snd (cstep md5raw fl secret st (CRecv d)) = Some (p_id p).
+Proof.
+  intros Hwf Hr Hp Ha H1 H2.
+  pose proof (crun_inv secret ops Hwf pending0 [] st outs cinv_init I Hr) as [Hi _].
+  rewrite app_nil_r in Hi. apply (crecv_decision secret st _ d (p_id p) Hi).
+  exists p, req. auto.
+Qed.
+
 End P.
 
 (* ------------------------------------------------------------------ CoA / Disconnect admission *)
